@@ -45,6 +45,9 @@ def build(case):
         if f["name"] in gates:      # entry guard: the frame can be entered from tick gates[name] - 1 on (.g counts ticks)
             st.insert(0, {"v": "let", "needs": [P.cmp(".g", ">=", gates[f["name"]])]})
         st.append(P.go(f["far"], [f["need"]] if f["need"] else []))
+        if f["name"] in (case.get("exitw") or {}):
+            # an exit action of the frame writes the watched share: it runs after the transition's transit actions
+            st.append({"v": "put", "data": {"value": case["exitw"][f["name"]]}, "dst": ".w", "ctx": "exit"})
         frames.append(P.frame(f["name"], st))
     plan = case["plan"]            # list of (tick, value)
     dframes = []
@@ -122,6 +125,8 @@ def model(case):
     stats = {"taken": 0, "refused": 0, "same_tick_entry": 0, "same_tick_transit": 0, "before_first_mark": 0,
              "guard_refused_marker_transition": 0, "guard_refused": 0}
     gates = case.get("gates") or {}
+    exitw = case.get("exitw") or {}
+    stats["exit_writes"] = 0
 
     def enter(name, t):
         for key, kind in entry_marks.get(name, []):
@@ -165,6 +170,10 @@ def model(case):
             if take:
                 if n:
                     reset(keyof(f, n), n["n"], t, "transit")
+                if active in exitw:          # exit action of the frame being left: after the transit actions
+                    value = exitw[active]
+                    upd = t
+                    stats["exit_writes"] += 1
                 active = far
                 enter(active, t)
                 for mk in marks.values():
@@ -254,11 +263,11 @@ def run(ctx):
     n = 16
     ctx.shard([{"cases": cases[i::n]} for i in range(n)], timeout=ctx.pick(300, 1500))
     for k in ("taken", "refused", "same_tick_entry", "same_tick_transit", "before_first_mark", "need_updated", "need_changed",
-              "with_in_frame", "with_by", "guard_refused_marker_transition", "same_frame_different_marks"):
+              "with_in_frame", "with_by", "guard_refused_marker_transition", "same_frame_different_marks", "exit_writes"):
         ctx.floor(k, 20)
 
 
-def random_case(rng, opts, gated=None):
+def random_case(rng, opts, gated=None, exitwrites=None):
     """one random history; gated=True forces entry guards on the later frames and marker needs on every frame"""
     nfr = rng.choice([2, 3])
     names = ["A", "B", "C"][:nfr]
@@ -289,4 +298,9 @@ def random_case(rng, opts, gated=None):
         for nm in names[1:]:
             if gated or rng.random() < 0.6:
                 gates[nm] = rng.randint(2, TICKS - 3)
-    return {"frames": frames, "plan": plan, "writer": rng.choice(["front", "back"]), "gates": gates}
+    exitw = {}
+    if exitwrites or rng.random() < 0.3:
+        for nm in names:
+            if exitwrites or rng.random() < 0.5:
+                exitw[nm] = rng.choice([0, 1, 2, 3])
+    return {"frames": frames, "plan": plan, "writer": rng.choice(["front", "back"]), "gates": gates, "exitw": exitw}
